@@ -22,7 +22,7 @@ NOTE = ("Trusted: TLC; monotonic clock; LastProbe is logged before the sender ca
 TECHNIQUE = "TLA+ model checking (TLC, explicit time) + validation of measured traces of the real runner against the spec"
 DESIGN_REF = "DESIGN.md section 5, C16"
 
-A = {"Reset", "Gen", "FillBegin", "FillEnd", "WriteBegin", "WriteEnd", "ErrSeen", "DoneSeen", "Cancel", "Returned", "Hang", "Garbled", "Crash"}
+A = {"Reset", "Gen", "FillBegin", "FillEnd", "WriteBegin", "WriteEnd", "RcvFail", "ErrSeen", "DoneSeen", "Cancel", "Returned", "Hang", "Garbled", "Crash"}
 B = {"Reset", "LastProbe", "DoneSeen", "Inject", "Line", "CtxCancelled", "Cancel", "Returned", "Hang", "Garbled", "Crash"}
 
 
